@@ -70,10 +70,9 @@ theorem rate_nonneg_consume (b : Bucket) (amt tok : Nat) (now : Rat) (h : RateNo
     cases hl : b'.last with
     | none => simp [RateNonneg]
     | some t0 =>
-      simp only [RateNonneg, ema, newRate, hl]
       by_cases hd : now - t0 ≤ 0
-      · simp [hd]
-      · simp only [hd, if_false]
+      · simp only [hd, if_true]; exact h'
+      · simp only [RateNonneg, ema, newRate, hl, hd, if_false]
         cases hrate : b'.rate with
         | inf => simp
         | fin c =>
@@ -95,6 +94,35 @@ theorem rate_nonneg_consume (b : Bucket) (amt tok : Nat) (now : Rat) (h : RateNo
     · simpa [RateNonneg] using h
     · exact hrec b h
 
+/-- **The tracked rate never becomes infinite** (the D5 repair): whatever the clock readings — also two
+consumptions at the same reading — the stored rate stays a finite number, so the moving average can
+always decay again and throttling is never permanent. -/
+def RateFinite (b : Bucket) : Prop := ∃ c, b.rate = .fin c
+
+theorem rate_finite_consume (b : Bucket) (amt tok : Nat) (now : Rat) (h : RateFinite b) :
+    RateFinite (consume b amt tok now).1 := by
+  have hrec : ∀ (b' : Bucket), RateFinite b' → RateFinite (record b' amt now) := by
+    intro b' h'
+    obtain ⟨c, hc⟩ := h'
+    unfold record
+    cases hl : b'.last with
+    | none => exact ⟨0, rfl⟩
+    | some t0 =>
+      by_cases hd : now - t0 ≤ 0
+      · simp only [hd, if_true]; exact ⟨c, hc⟩
+      · simp only [hd, if_false, ema, newRate, hl, hc]
+        exact ⟨_, rfl⟩
+  unfold consume
+  by_cases hs : isScheduled b tok = true
+  · simp only [hs, if_true]
+    apply hrec
+    obtain ⟨c, hc⟩ := h
+    exact ⟨c, by simpa [unschedule] using hc⟩
+  · simp only [hs, Bool.false_eq_true, if_false]
+    split
+    · obtain ⟨c, hc⟩ := h; exact ⟨c, by simpa using hc⟩
+    · exact hrec b h
+
 /-- **One wait.** A token that was scheduled is granted on its next attempt, whatever the rate. -/
 theorem one_wait (b : Bucket) (amt tok : Nat) (now : Rat) (h : isScheduled b tok = true) :
     (consume b amt tok now).2 = .granted ∧ isScheduled (consume b amt tok now).1 tok = false := by
@@ -102,7 +130,9 @@ theorem one_wait (b : Bucket) (amt tok : Nat) (now : Rat) (h : isScheduled b tok
   simp only [h, if_true]
   refine ⟨trivial, ?_⟩
   have : ∀ b' : Bucket, isScheduled (record b' amt now) tok = isScheduled b' tok := by
-    intro b'; unfold record isScheduled; split <;> rfl
+    intro b'; unfold record isScheduled; split
+    · rfl
+    · split <;> rfl
   rw [this]
   unfold unschedule isScheduled
   simp only [List.any_filter]
@@ -168,8 +198,8 @@ theorem no_delay_below_limit (b : Bucket) (hm : 0 ≤ b.maxRate) (hc : Calm b)
           simp only [this, Bool.false_eq_true, if_false]
           have hrec : (record b amt now).rate = .fin (alpha * ((amt : Rat) / (now - t0)) + (1 - alpha) * c) := by
             simp [record, hl, ema, newRate, hnd, hc1]
-          refine ⟨trivial, ⟨by simp [record, hl, hc.nosched], Or.inr ⟨_, hrec, hge, by simpa [record, hl] using hle⟩⟩,
-                  by simp [record, hl], by simp [record, hl]⟩
+          refine ⟨trivial, ⟨by simp [record, hl, hnd, hc.nosched], Or.inr ⟨_, hrec, hge, by simpa [record, hl, hnd] using hle⟩⟩,
+                  by simp [record, hl, hnd], by simp [record, hl, hnd]⟩
     obtain ⟨k1, k2, k3, k4⟩ := key
     intro o ho
     simp only [runConsumes, List.mem_cons] at ho
@@ -255,7 +285,9 @@ theorem wait_is_queue (b : Bucket) (amt tok : Nat) (now : Rat) (hm : 0 < b.maxRa
     intro b' h'
     obtain ⟨a1, a2, a3⟩ := h'
     unfold record
-    split <;> exact ⟨a1, a2, a3⟩
+    split
+    · exact ⟨a1, a2, a3⟩
+    · split <;> exact ⟨a1, a2, a3⟩
   unfold consume
   by_cases hs : isScheduled b tok = true
   · simp only [hs, if_true]
@@ -365,9 +397,11 @@ theorem consume_unsched_granted (b : Bucket) (amt tok : Nat) (now : Rat) (hns : 
   · simp [h] at hg
   · simp [h]
 
-theorem record_last (b : Bucket) (amt : Nat) (now : Rat) : (record b amt now).last = some now ∧ (record b amt now).maxRate = b.maxRate := by
+theorem record_last (b : Bucket) (amt : Nat) (now t0 : Rat) (hl : b.last = some t0) (ht : t0 < now) :
+    (record b amt now).last = some now ∧ (record b amt now).maxRate = b.maxRate := by
   unfold record
-  cases b.last <;> simp
+  have hnd : ¬ (now - t0 ≤ 0) := by linarith
+  simp [hl, hnd]
 
 /-- **Window bound for first-attempt traffic.** Over any stretch of consecutive grants none of which
 had to wait, the bytes granted after the clock reading `t0` of the previous grant are at most
@@ -390,7 +424,7 @@ theorem window_unsched (evs : List (Nat × Nat × Rat)) (b b' : Bucket) (t0 : Ra
       obtain ⟨hns, hgr⟩ := hg
       have hb := admit_bound b amt tok now t0 hlast hr hns hgr
       have heq := consume_unsched_granted b amt tok now hns hgr
-      have hrl := record_last b amt now
+      have hrl := record_last b amt now t0 hlast hb.1
       have hr1 : RateNonneg (consume b amt tok now).1 := rate_nonneg_consume b amt tok now hr
       have hl1 : (consume b amt tok now).1.last = some now := by rw [heq]; exact hrl.1
       have hm1 : (consume b amt tok now).1.maxRate = b.maxRate := by rw [heq]; exact hrl.2
